@@ -144,18 +144,19 @@ DOCS = {
 }
 
 
-@lemma('O3.end-to-end', 'C19', quick=[{'doc': d} for d in sorted(DOCS)], timeout=600, per_path=120,
+@lemma('O3.end-to-end', 'C19', quick=[{'doc': d, 'b': b} for d in sorted(DOCS) for b in (1, 2, 3)],
+       thorough=[{'doc': d, 'b': b} for d in sorted(DOCS) for b in (1, 2, 3, 4, 5, 6)], timeout=600, per_path=120,
        covers=['contrib/toc_renderer.py:TocRenderer.render_heading', 'contrib/toc_renderer.py:TocRenderer.toc',
                'html_renderer.py:HtmlRenderer.render_heading'],
        note='three ATX headings (top level / in a quote / in a list item); two levels symbolic in 1..6 (solver-enumerated: the level is written into the text), depth an unbounded int; through TocRenderer().render(Document(...))')
 def o3_end_to_end(a: int, b: int, c: int, depth: int, omit: bool) -> bool:
     """
-    pre: 1 <= a <= 6 and 1 <= b <= 6 and c == 2
+    pre: 1 <= a <= 6 and b == P('b') and c == 2
     post: _
     """
     from mistletoe import Document
     a = concretise(a, 1, 6)
-    b = concretise(b, 1, 6)
+    b = P('b')
     text = DOCS[P('doc')].format(a='#' * a, b='#' * b, c='#' * c)
     with TocRenderer(depth=depth, omit_title=omit) as r:
         r.render(Document(text))
